@@ -186,6 +186,33 @@ func vf07CheckRaw(st *vfStats, t vfFataler, rec []byte, flags uint8, origin stri
 		st.Class("raw-err: " + vf07ErrClass(err))
 		return
 	}
+	// the same import into a spec variable that already holds an earlier import (an application that keeps one
+	// ClientHelloSpec and fills it capture after capture): the result is the new hello's spec, nothing of the old one
+	if seeds, serr := vf07Seeds(); serr == nil && len(seeds) > 0 {
+		base := seeds[int(flags)%len(seeds)]
+		var reused ClientHelloSpec
+		if reused.FromRaw(base.Rec, true, false) == nil {
+			var err3 error
+			if p := vfCatch(func() { err3 = reused.FromRaw(rec, f.AllowBluntMimicry, f.RealPSKResumption) }); p != nil {
+				st.Violation(t, "ClientHelloSpec.FromRaw into a spec holding an earlier import panicked: %v at %s; input(%s)=%x", p.Val, vf07PanicLine(p), origin, rec)
+			}
+			if err3 != nil {
+				st.Violation(t, "FromRaw into a spec holding an earlier import (%s) fails: %v, into a fresh spec it succeeds; input(%s)=%x", base.Name, err3, origin, rec)
+			}
+			a, b := fmt.Sprintf("%04x", reused.CipherSuites), fmt.Sprintf("%04x", spec2.CipherSuites)
+			for _, e := range reused.Extensions {
+				a += fmt.Sprintf(" %T", e)
+			}
+			for _, e := range spec2.Extensions {
+				b += fmt.Sprintf(" %T", e)
+			}
+			if a != b || reused.TLSVersMin != spec2.TLSVersMin || reused.TLSVersMax != spec2.TLSVersMax {
+				st.Violation(t, "FromRaw into a spec holding an earlier import (%s) gives another spec than into a fresh one:\n reused: %s (versions %04x..%04x)\n fresh:  %s (versions %04x..%04x)\n input(%s)=%x",
+					base.Name, a, reused.TLSVersMin, reused.TLSVersMax, b, spec2.TLSVersMin, spec2.TLSVersMax, origin, rec)
+			}
+			st.Class("raw-import-into-reused-spec")
+		}
+	}
 	r := vf07Apply(spec, flags&8 != 0, flags&16 != 0)
 	switch {
 	case r.Panic != nil && valid:
